@@ -137,7 +137,7 @@ namespace
 
     // statements wired into a separate SubGraph-kind Wiring (what compile_subgraph / nested_<> composes into):
     // inputs are child-local nodes, declared boundary arguments, or outer ports captured from the parent wiring
-    struct ChildIn { int kind{0}; std::int64_t ref{0}; };   // 0 child-local node, 4 declared argument, 5 captured parent port
+    struct ChildIn { int kind{0}; std::int64_t ref{0}; std::int64_t elem{-1}; };   // 0 child-local node, 4 declared argument (elem >= 0: that element of a TSL argument), 5 captured parent port
     struct ChildStmt
     {
         std::int64_t              cl{0}, child{0}, def{0};
@@ -208,7 +208,7 @@ namespace
                 case 13:
                     for (ChildStmt &c : p.child_stmts)
                     {
-                        if (c.cl == l.at(1) && c.child == l.at(2)) { c.ins.push_back(ChildIn{(int)l.at(4), l.at(5)}); }
+                        if (c.cl == l.at(1) && c.child == l.at(2)) { c.ins.push_back(ChildIn{(int)l.at(4), l.at(5), l.size() > 6 ? l.at(6) : -1}); }
                     }
                     break;
                 default: break;
@@ -477,12 +477,19 @@ namespace
             }
             builder.label("L" + std::to_string(s.label));
             Value         scalars = (s.kind == 4 || s.kind == 5 || s.kind == 3) ? Value{} : make_scalars(s);
+            // plain positional inputs (rank dependency, no explicit target path) go through the WiringPortRef
+            // overloads, as wire<> does; anything else through the WiringInputRef ones
+            const bool plain = std::all_of(s.ins.begin(), s.ins.end(), [](const Input &i) { return i.rank && i.tpath.empty(); });
+            const bool unique = s.uniq || s.kind == 4 || s.kind == 3;
             WiringPortRef out =
-                s.uniq || s.kind == 4 || s.kind == 3
-                    ? w.add_unique_node(def, std::move(builder), std::span<const WiringInputRef>{inputs.data(), inputs.size()},
-                                        std::move(scalars))
-                    : w.add_node(def, std::move(builder), std::span<const WiringInputRef>{inputs.data(), inputs.size()},
-                                 std::move(scalars));
+                plain ? (unique ? w.add_unique_node(def, std::move(builder), std::span<const WiringPortRef>{sources.data(), sources.size()},
+                                                    std::move(scalars))
+                                : w.add_node(def, std::move(builder), std::span<const WiringPortRef>{sources.data(), sources.size()},
+                                             std::move(scalars)))
+                      : (unique ? w.add_unique_node(def, std::move(builder), std::span<const WiringInputRef>{inputs.data(), inputs.size()},
+                                                    std::move(scalars))
+                                : w.add_node(def, std::move(builder), std::span<const WiringInputRef>{inputs.data(), inputs.size()},
+                                             std::move(scalars)));
             const WiringInstance *inst = out.peered_node();
             auto [it, fresh]           = creator.try_emplace(inst, s.label);
             rep[s.label]               = it->second;
@@ -565,7 +572,12 @@ namespace
                         std::vector<WiringPortRef> sources;
                         for (const ChildIn &in : c->ins)
                         {
-                            if (in.kind == 4) { sources.push_back(WiringPortRef::boundary_source((std::size_t)in.ref, {}, metas().ts_int)); }
+                            if (in.kind == 4 && in.elem >= 0)
+                            {
+                                // element `elem` of a structured (TSL) boundary argument, as projecting the argument port does
+                                sources.push_back(WiringPortRef::boundary_source((std::size_t)in.ref, {(std::size_t)in.elem}, metas().ts_int));
+                            }
+                            else if (in.kind == 4) { sources.push_back(WiringPortRef::boundary_source((std::size_t)in.ref, {}, metas().ts_int)); }
                             else if (in.kind == 5) { sources.push_back(child.capture_outer_source(wr.ports.at(in.ref))); }
                             else { sources.push_back(ports.at(in.ref)); }
                         }
